@@ -343,6 +343,13 @@ func init() {
 			cases = append(cases, &KernelCase{Name: fmt.Sprintf("K2.v0.anyOf.index-len%d", n), Func: "VerifKernelDeref", Native: jsonschema.VerifKernelDeref,
 				Args: []ArgSpec{conArg(0), conArg("anyOf"), conArg(true), strArg(n, "0129_+-xXbo ")}})
 		}
+		// very long digit strings: an index beyond every integer type still designates nothing
+		for _, pre := range []string{"1844674407370955161", "3689348814741910323", "922337203685477580", "429496729", "4294967296"} {
+			for n := 1; n <= 2; n++ {
+				cases = append(cases, &KernelCase{Name: fmt.Sprintf("K2.v0.anyOf.bigindex.%s+len%d", pre, n), Func: "VerifKernelDerefBigIndex", Native: jsonschema.VerifKernelDerefBigIndex,
+					Args: []ArgSpec{conArg(pre), strArg(n, "0123456789")}})
+			}
+		}
 		// symbolic first segment (short), no second segment
 		for n := 0; n <= 3; n++ {
 			cases = append(cases, &KernelCase{Name: fmt.Sprintf("K2.seg1len%d", n), Func: "VerifKernelDeref", Native: jsonschema.VerifKernelDeref,
@@ -354,7 +361,7 @@ func init() {
 		cc.RunValidateFamily(r, ptr, VOptions{ValidatePaths: true})
 		r.Bounds = append(r.Bounds, "K3: for every subschema location of a maximal document of each draft (same key pool plus keys needing percent-encoding) the reference '#'+percent-encoded pointer is resolved natively and Validate is compared with the independent RFC 6901 resolver on a symbolic instance; 16 invalid or dangling pointers per draft must make Resolve fail")
 		r.Outside = append(r.Outside, "percent-decoding itself is net/url's (native, concrete strings); pointers with more than two symbolic segments")
-		r.Bounds = append(r.Bounds, fmt.Sprintf("K2: dereferenceJSONPointer on a maximal schema of either draft shape (every subschema-bearing keyword populated, map keys incl. \"\", /, ~, ~0, ~1, %%, space, non-ASCII, digits, -, 01, +1): first segment = every JSON field name and some non-keywords (enumerated), second segment = all strings of length <= %d over {a,0,1,9,~,-,+,%%,n,o,t,space}, and for the 12-member array anyOf all index strings of length <= 3 over {0,1,2,9,_,+,-,x,X,b,o,space}; result must be the subschema RFC 6901 designates, else an error", maxS))
+		r.Bounds = append(r.Bounds, fmt.Sprintf("K2: dereferenceJSONPointer on a maximal schema of either draft shape (every subschema-bearing keyword populated, map keys incl. \"\", /, ~, ~0, ~1, %%, space, non-ASCII, digits, -, 01, +1): first segment = every JSON field name and some non-keywords (enumerated), second segment = all strings of length <= %d over {a,0,1,9,~,-,+,%%,n,o,t,space}, and for the 12-member array anyOf all index strings of length <= 3 over {0,1,2,9,_,+,-,x,X,b,o,space} and the digit strings around 2^31, 2^32, 2^63, 2^64 and 2^65 (concrete prefix + 1..2 symbolic digits); result must be the subschema RFC 6901 designates, else an error", maxS))
 		r.Bounds = append(r.Bounds, fmt.Sprintf("K1: escape/unescape/parse on all byte strings (bytes 0..127) of length <= %d and all pointers over the alphabet {a,0,1,~,/,-,+} of length <= %d, executed from the real SSA incl. the strings.Replacer contract model built from the package initialiser's arguments", maxK, maxP))
 	}
 }
